@@ -36,7 +36,22 @@ def replay(d):
         inc.write(f1, sh['reset'])
         nv = sh['nvars'] if sh['nvars'] > 4 else None
         rkw = dict(check_blocknames=False) if sh.get('freenames') else {}
-        inc2 = t2incon(f1, num_variables=nv, **rkw)
+        if sh.get('reader') == 'used':
+            # the reading object has read another file before (the other flavour, one block, timing kept)
+            pre = d.get('pre') or dict(toughreact=not (anyperm or sh.get('toughreact')), name='zz  1', variables=[1.5], porosity=0.1,
+                                       permeability=[1e-15, 2e-15, 3e-15], timing=dict(kcyc=123456, iter=654321, nm=7, tstart=0.0, sumtim=2.5))
+            pinc = t2incon()
+            if pre['toughreact']: pinc.simulator = 'TOUGHREACT'
+            pk = np.array(num(pre['permeability'])) if (pre['toughreact'] and pre['permeability'] is not None) else None
+            pinc[pre['name']] = t2blockincon(num(pre['variables']), pre['name'], num(pre['porosity']), pk)
+            pinc.timing = {k: num(v) for k, v in pre['timing'].items()}
+            f0 = os.path.join(tmp, 'p.incon')
+            pinc.write(f0, False)
+            inc2 = t2incon(f0)
+            os.remove(f0)
+            inc2.read(f1, nv, **rkw)
+        else:
+            inc2 = t2incon(f1, num_variables=nv, **rkw)
         if inc2.num_blocks != len(d['blocks']): problems.append('block count %d != %d' % (inc2.num_blocks, len(d['blocks'])))
         else:
             for b, r in zip(d['blocks'], inc2):
